@@ -73,7 +73,10 @@ theorem opActs_noCancel (cfg : Cfg) (x : Sim) (op : Op) (h : op ≠ .drain) : Ac
   | tickHold =>
     simp only [opActs, tickPrefix, List.mem_append, not_or]
     exact ⟨⟨⟨by simp, cancel_not_mem_repeat _ hw _⟩, by simp⟩, cancel_not_mem_loopUntilGate cfg _ _ _⟩
-  | tickRelease => exact cancel_not_mem_repeat _ hl _
+  | tickRelease =>
+    simp only [opActs, List.mem_append, List.mem_cons, not_or]
+    exact ⟨cancel_not_mem_repeat _ hl _, by simp, cancel_not_mem_repeat _ hw _⟩
+  | advance ms => simp [opActs]
 
 theorem schedule_noCancel (cfg : Cfg) (ops : List Op) (x : Sim) (h : Op.drain ∉ ops) :
     noCancel (schedule cfg x ops) := by
